@@ -380,7 +380,22 @@ func genC03(t *rapid.T) *Bundle {
 		tags = append(tags, "mixed_keys")
 	}
 	sim := casefmt.SimConfig{Strategy: "np", MapPolicy: rapid.SampledFrom([]string{"rotate", "random", "mixed"}).Draw(t, "map_policy"), MapSeed: uint64(rapid.IntRange(0, 1<<16).Draw(t, "map_seed"))}
-	c := oneClientCase("C03", sim, map[string]any{"t": table}, casefmt.Op{Doc: 0, Vars: -1, Query: q})
+	// the same caller may have queried the same document before, in the same process: a filter, an
+	// ordering, or this very query. None of that may change what the grouped query returns.
+	ops := []casefmt.Op{}
+	switch rapid.IntRange(0, 4).Draw(t, "prelude") {
+	case 0:
+		ops = append(ops, casefmt.Op{Doc: 0, Vars: -1, Query: "SELECT y, z FROM t WHERE " + drawWherePred(t, 0).sql()})
+		tags = append(tags, "prelude:filter")
+	case 1:
+		ops = append(ops, casefmt.Op{Doc: 0, Vars: -1, Query: q})
+		tags = append(tags, "prelude:same_query")
+	case 2:
+		ops = append(ops, casefmt.Op{Doc: 0, Vars: -1, Query: "SELECT * FROM t ORDER BY z DESC, y LIMIT 2"})
+		tags = append(tags, "prelude:order_limit")
+	}
+	ops = append(ops, casefmt.Op{Doc: 0, Vars: -1, Query: q, ExecTwice: rapid.Bool().Draw(t, "exec_twice")})
+	c := oneClientCase("C03", sim, map[string]any{"t": table}, ops...)
 	c.NativeInts = rapid.Bool().Draw(t, "native_ints")
 	return &Bundle{Prop: "C03", Kind: map[bool]string{true: "whole_table", false: "group_by"}[whole], Case: c, Expect: mustJSON(e), Tags: tags}
 }
@@ -452,7 +467,7 @@ func evalC03(b *Bundle, r *Runner) []*Violation {
 		if hv := processHealth(b, o); len(hv) > 0 {
 			return hv
 		}
-		op := &o.Ops[0]
+		op := &o.Ops[len(o.Ops)-1]
 		if failed(op) {
 			return []*Violation{mkViolation(b, "GROUP_QUERY_FAILED", "", fmt.Sprintf("%s\n failed: %s%s", e.Query, op.NewErr, op.ExecErr), o)}
 		}
@@ -487,6 +502,16 @@ func evalC03(b *Bundle, r *Runner) []*Violation {
 			}
 			return []*Violation{mkViolation(b, cls, "", fmt.Sprintf("%s (map order %s/%d)\n on t=%s\n reference %s\n engine    %s", e.Query, sim.MapPolicy, sim.MapSeed,
 				docTable(b, "t"), canonText(e.Rows), compact(op.Rows)), o)}
+		}
+		if op.Exec2 != "" {
+			// a second Exec of the same Query is one more run: identical again
+			if op.Exec2 != "ok" || string(op.Rows2) != string(op.Rows) {
+				return []*Violation{mkViolation(b, "GROUP_RUN_TO_RUN", "second_exec", fmt.Sprintf("%s\n first Exec : %s\n second Exec of the same Query: %s %s", e.Query, compact(op.Rows), op.Exec2, compact(op.Rows2)), o)}
+			}
+			r.Stats.probe("second_exec_compared")
+		}
+		if len(o.Ops) > 1 {
+			r.Stats.probe("ran_after_a_prelude_query")
 		}
 		if o.Sim.MapPermuted > 0 {
 			r.Stats.probe("ran_under_permuted_map_order")
